@@ -456,6 +456,15 @@ def main():
             tech = tech + '; ' + EXTRA[pid][0]
             text = text + ' ' + EXTRA[pid][1]
             ref = ref + ' and section 15'
+        if pid not in ('C04', 'C14', 'C19', 'C20'):
+            tech = tech + ('; generic structural rules (tiling, cursors, '
+                           'memo keys, permutation pairing, dtype and HDF5 '
+                           'idioms) over every function of the anchored '
+                           'modules')
+            text = text + (' Every function of the modules the property is '
+                           'anchored in is additionally scanned with the '
+                           'generic structural rules (DESIGN.md section '
+                           '15, module scan).')
         checks.append({
             'property_id': pid,
             'quick_cmd': f'./check {pid} --tier quick',
